@@ -13,6 +13,9 @@ TraceInit == tid \in 1..N /\ l = 2
 TraceNext == /\ l <= Len(T) /\ l' = l + 1 /\ UNCHANGED tid
              /\ \/ E.ev = "OBS" /\ (E.negotiated => SemanticsMatch(T[1].tokens, E))
                 \/ E.ev = "SEL" /\ (E.accepted => DefinedAt(T[1].tokens, E.ver))
+                \* SSEL: the ServerHello of the server under test: its suite is defined for the version it announces, and
+                \* that version is the one the ClientHello asks for (supported_versions decides alone where present)
+                \/ E.ev = "SSEL" /\ DefinedAt(T[1].tokens, E.ver) /\ (E.want >= 0 => E.ver = E.want)
                 \* RS: a TLS 1.3 connection resumed from a ticket of ANOTHER suite with the same hash; CFG names the suite
                 \* of this connection's ServerHello: the accessors report it and keys derived later (KeyUpdate) fit it
                 \/ E.ev = "RS" /\ CipherNameOk(T[1].tokens, E.sessCipherName) /\ E.connCipherName = E.sessCipherName
